@@ -88,6 +88,9 @@ impl Ty {
     }
 }
 
+/// Maximum number of list / non-null wrappers around a generated type
+const MAX_TYPE_NESTING: usize = 32;
+
 impl DocumentBuilder<'_> {
     /// Create an arbitrary `Ty`
     pub fn ty(&mut self) -> ArbitraryResult<Ty> {
@@ -114,7 +117,23 @@ impl DocumentBuilder<'_> {
         existing_types: &[Ty],
         is_nullable: bool,
     ) -> ArbitraryResult<Ty> {
-        let ty: Ty = match self.u.int_in_range(0..=2usize)? {
+        self.choose_ty_nested(existing_types, is_nullable, 0)
+    }
+
+    fn choose_ty_nested(
+        &mut self,
+        existing_types: &[Ty],
+        is_nullable: bool,
+        depth: usize,
+    ) -> ArbitraryResult<Ty> {
+        // Stop wrapping at some point: a type nested deeper than the parser's recursion limit
+        // would not parse
+        let kind = if depth >= MAX_TYPE_NESTING {
+            0
+        } else {
+            self.u.int_in_range(0..=2usize)?
+        };
+        let ty: Ty = match kind {
             // Named type
             0 => {
                 let used_type_names: Vec<&Ty> = existing_types
@@ -125,17 +144,21 @@ impl DocumentBuilder<'_> {
                 self.u.choose(&used_type_names)?.to_owned().clone()
             }
             // List type
-            1 => Ty::List(Box::new(
-                self.choose_ty_given_nullable(existing_types, true)?,
-            )),
+            1 => Ty::List(Box::new(self.choose_ty_nested(
+                existing_types,
+                true,
+                depth + 1,
+            )?)),
             // Non Null type
             2 => {
                 if is_nullable {
-                    Ty::NonNull(Box::new(
-                        self.choose_ty_given_nullable(existing_types, false)?,
-                    ))
+                    Ty::NonNull(Box::new(self.choose_ty_nested(
+                        existing_types,
+                        false,
+                        depth + 1,
+                    )?))
                 } else {
-                    self.choose_ty_given_nullable(existing_types, is_nullable)?
+                    self.choose_ty_nested(existing_types, is_nullable, depth + 1)?
                 }
             }
             _ => unreachable!(),
@@ -145,17 +168,26 @@ impl DocumentBuilder<'_> {
     }
 
     fn generate_ty(&mut self, is_nullable: bool) -> ArbitraryResult<Ty> {
-        let ty = match self.u.int_in_range(0..=2usize)? {
+        self.generate_ty_nested(is_nullable, 0)
+    }
+
+    fn generate_ty_nested(&mut self, is_nullable: bool, depth: usize) -> ArbitraryResult<Ty> {
+        let kind = if depth >= MAX_TYPE_NESTING {
+            0
+        } else {
+            self.u.int_in_range(0..=2usize)?
+        };
+        let ty = match kind {
             // Named type
             0 => Ty::Named(self.name()?),
             // List type
-            1 => Ty::List(Box::new(self.generate_ty(true)?)),
+            1 => Ty::List(Box::new(self.generate_ty_nested(true, depth + 1)?)),
             // Non Null type
             2 => {
                 if is_nullable {
-                    Ty::NonNull(Box::new(self.generate_ty(false)?))
+                    Ty::NonNull(Box::new(self.generate_ty_nested(false, depth + 1)?))
                 } else {
-                    self.generate_ty(is_nullable)?
+                    self.generate_ty_nested(is_nullable, depth + 1)?
                 }
             }
             _ => unreachable!(),
